@@ -339,6 +339,42 @@ def reduce_pairs(pairs, seed=0, pc=()):
     return True, c.residual
 
 
+def models_of_pc(pc, names, k, rng):
+    """k diverse assignments satisfying the path condition, from the solver (used when random / corner vectors do not
+    satisfy it, e.g. 'the low counter word carried'); variables the path condition does not mention stay random"""
+    import z3
+    pcvars = T.support([c for c, v in pc])[0]
+    out = []
+    s = z3.Solver()
+    s.set('timeout', 10000)
+    for c, v in pc:
+        s.add(T.z3val(c) == (1 if v else 0))
+    for i in range(k):
+        s.push()
+        # diversity: pin a few random low bits of each path-condition variable
+        for n in pcvars:
+            w = names.get(n)
+            if w and i:
+                b = rng.randrange(w)
+                s.add(z3.Extract(b, b, z3.BitVec(n, w)) == rng.getrandbits(1))
+        r = s.check()
+        if r != z3.sat:
+            s.pop()
+            if i == 0:
+                return out
+            continue
+        m = s.model()
+        asg = {n: (rng.getrandbits(w) if i % 2 else biased(rng, w)) for n, w in names.items()}
+        for n in pcvars:
+            w = names.get(n)
+            if w:
+                v = m.eval(z3.BitVec(n, w), model_completion=True)
+                asg[n] = v.as_long()
+        s.pop()
+        out.append(asg)
+    return out
+
+
 def corner_assignments(names, rng, nrand=4):
     """assignments used both as simulation signatures and as strengthened (constant-input) queries"""
     out = []
@@ -676,7 +712,12 @@ def discover_aliases(pairs, pc=(), maxcone=12, seed=0, solve=None, maxcand=600, 
             ok = all(ev.val(c) == (1 if v else 0) for c, v in pc)
         if ok:
             evals.append(ev)
-    if len(evals) < 4:
+    if len(evals) < 4 and pc:
+        for asg in models_of_pc(pc, names, 8, rng):
+            ev = T.Evaluator(asg)
+            if all(ev.val(c) == (1 if v else 0) for c, v in pc):
+                evals.append(ev)
+    if len(evals) < 3:
         return {}, {}, 0
 
     def entities(j):
@@ -700,6 +741,10 @@ def discover_aliases(pairs, pc=(), maxcone=12, seed=0, solve=None, maxcand=600, 
             cur = cands.get(s_)
             if cur is None or rank < cur[0]:
                 cands[s_] = (rank, v)
+        # constants are the best representatives (a flag that is fixed by the path condition becomes a constant)
+        for wc in (1, 32, 64):
+            addc(T.const(0, wc), (-1, 0, 0, 0))
+        addc(T.const(1, 1), (-1, 0, 0, 1))
         for j in order:
             if T.nodes[j][0] == 'var':
                 f = T.full(j)
@@ -745,12 +790,21 @@ def discover_aliases(pairs, pc=(), maxcone=12, seed=0, solve=None, maxcand=600, 
     node_alias = {}
     slice_alias = {}
     # orientation must be acyclic: a node that serves as (part of) a representative is never rewritten itself
-    used_as_rep = set()
-    rewritten = set()
+    edges = {}      # rewritten node -> nodes its representatives mention
+
+    def reaches(src, target, seen=None):
+        seen = seen or set()
+        if src == target:
+            return True
+        if src in seen:
+            return False
+        seen.add(src)
+        return any(reaches(x, target, seen) for x in edges.get(src, ()))
     proved.sort(key=lambda ob: (0 if (ob[0][1] == 0 and ob[0][2] == T.nodes[ob[0][0]][1]) else 1, -ob[0][2]))
     for (j, a, m), e, rep in proved:
         deps = set(T.value_deps(rep))
-        if j in used_as_rep or (deps & rewritten):
+        # chains are fine (a -> b, b[hi] -> c); cycles are not
+        if any(reaches(d, j) for d in deps):
             continue
         if a == 0 and m == T.nodes[j][1]:
             node_alias[j] = rep
@@ -758,6 +812,5 @@ def discover_aliases(pairs, pc=(), maxcone=12, seed=0, solve=None, maxcand=600, 
             continue
         else:
             slice_alias.setdefault(j, []).append((a, m, rep))
-        rewritten.add(j)
-        used_as_rep |= deps
+        edges.setdefault(j, set()).update(deps)
     return node_alias, slice_alias, nq
